@@ -1,6 +1,6 @@
 (* C12 — property theorems (statements only; the proofs live in the Acme.C12.Proofs... files). *)
 From Coq Require Import ZArith List Bool.
-From Acme.C12 Require Import Proto NetModel Save Load Proj Domain ProofsSel ProofsRT8 Proofs Builder Refuted.
+From Acme.C12 Require Import Proto NetModel Save Load Proj Domain ProofsSel ProofsRT8 Proofs Builder Refuted LayoutC01.
 From Acme.C13 Require Import ProofsBuilder.
 Import ListNotations.
 Open Scope Z_scope.
@@ -52,3 +52,10 @@ Print Assumptions built_wf.
 Theorem in_domain_needed : Forall refutes domain_witnesses.
 Proof. exact in_domain_needed_lemma. Qed.
 Print Assumptions in_domain_needed.
+
+(* The layouts `wfb` demands are well-formed in the sense of C01: every message payload and every group of every
+   multiplexer at any depth, seen as a C01 view (handle = index, start = relative start bit, len = size), satisfies
+   Acme.C01.Layout.wfb - the same boolean layout predicate C01's theorems are about. *)
+Theorem wfb_layouts_c01 : forall n, wfb n = true -> net_c01_okb n = true.
+Proof. exact wfb_layouts_c01_lemma. Qed.
+Print Assumptions wfb_layouts_c01.
